@@ -177,3 +177,40 @@ class Run(object):
         self.known_hits = known_hits
         self.evidence = ev
         return 1 if violations else 0
+
+
+class SubRun(object):
+    """Lets one check reuse the rules of another check's module inside its own run: obligations
+    of the selected rules are forwarded to the parent under a mapped rule id, everything else the
+    borrowed module sets (explanation, floors, other rules) stays local and is dropped."""
+
+    def __init__(self, parent, keep, rename=None):
+        self.parent = parent
+        self.keep = set(keep)
+        self.rename = rename or (lambda r: r)
+        self.explanation = ''
+        self.assumptions = []
+        self.trusted = []
+        self.notes = []
+        self.stats = {}
+        self.exhaustive = False
+        self.findings = []
+        self.tier = parent.tier
+        self.seed = parent.seed
+        self.repo = parent.repo
+
+    def rule(self, name, floor=0, desc=''):
+        return {'sites': 0, 'failed': 0, 'floor': floor, 'desc': desc}
+
+    def ok(self, rule, sample=None):
+        if rule in self.keep:
+            self.parent.ok(self.rename(rule), sample)
+
+    def fail(self, finding):
+        self.findings.append(finding)
+        if finding.rule in self.keep:
+            finding.rule = self.rename(finding.rule)
+            self.parent.fail(finding)
+
+    def sample(self, rule, text):
+        pass
